@@ -66,6 +66,10 @@ class Fates:
         site = self.site() if self.record_sites or fate != FOK else ""
         self.log.append((self.n, fate, site))
         self.n += 1
+        if fate != FOK:
+            # the COMMIT statement is what fails: the pending rows have been sent (and checked
+            # against the keys) before it
+            self.backend.session.flush()
         if fate == FFAIL:
             raise OperationalError("commit", {}, Exception("injected transient error"))
         if fate == FCRASH:
@@ -323,12 +327,15 @@ def run_script(world, ops, retries, workdir, tag="c"):
                     if c.key() not in done:
                         done.add(c.key())
                         world.op_rcn(src, sf, c, c.tasks(), [])
-            tmp = backend if alive else new_backend(dbfile, retries)
+            # the transfer is done by another process (redun push/pull): its own engine and pool.
+            # (put_records leaves a pooled connection with PRAGMA foreign_keys=OFF, see C22 findings.)
+            if alive:
+                backend.session.rollback()
+            tmp = new_backend(dbfile, retries)
             ids = list(src.iter_record_ids([world.call_hash(src, r) for r in op[1]]))
             tmp.put_records(src.get_records(ids))
             tmp.session.rollback()
-            if not alive:
-                close_backend(tmp)
+            close_backend(tmp)
             close_backend(src)
             outs.append(0)
         elif not alive:
